@@ -15,10 +15,56 @@ import sys
 import time
 import traceback
 
+from concurrent.futures import ProcessPoolExecutor
+
 from . import extract, solve
 from .interp import Gap
 
 VERIF = extract.VERIF
+
+
+class SerialObligation:
+    """an obligation produced in a worker process: claim and hypotheses are already one SMT-LIB query"""
+
+    def __init__(self, d, kobj):
+        self.name = d["name"]
+        self.kind = d["kind"]
+        self.line = d["line"]
+        self.note = d["note"]
+        self.path = d["path"]
+        self.smt2 = d["smt2"]  # None = trivially true
+        self.kernel = kobj.kid
+        self.kobj = kobj
+        self.hyps = None
+        self.claim = None
+
+
+def _run_kernel(spec):
+    modname, clsname, pid = spec
+    try:
+        import z3
+        mod = importlib.import_module(modname)
+        kc = [c for c in mod.KERNELS if c.__name__ == clsname][0]
+        k = kc()
+        dumps = extract.dump_many(k.requests())
+        k.locate(dumps)
+        obs, st = k.run_all()
+        if not obs:
+            return {"gap": "zero obligations generated (vacuous)"}
+        outl = []
+        for ob in obs:
+            tags = set(re.findall(r"C\d\d", " ".join(re.findall(r"\[([^\]]*)\]", ob.name))))
+            if tags and pid not in tags:
+                continue
+            c = ob.claim if z3.is_quantifier(ob.claim) else z3.simplify(ob.claim)
+            smt2 = None if z3.is_true(c) else solve.to_smt2(ob.hyps, ob.claim)
+            outl.append({"name": ob.name, "kind": ob.kind, "line": ob.line, "note": ob.note,
+                         "path": [list(p) for p in (ob.path or [])], "smt2": smt2})
+        return {"stats": st, "src": k.src, "obligations": outl}
+    except Gap as g:
+        return {"gap": str(g)}
+    except Exception as ex:
+        return {"gap": "internal error: %r\n%s" % (ex, traceback.format_exc()[-1500:])}
 
 
 def load_known():
@@ -61,38 +107,30 @@ def run_property(pid, tier, seed):
         return out
     out["extract_s"] = round(time.time() - t1, 2)
     allobs = []
-    for k in kernels:
-        try:
-            k.locate(dumps)
-            obs, st = k.run_all()
-        except Gap as g:
-            out["gaps"].append({"kernel": k.kid, "reason": str(g)})
-            print("GAP kernel=%s %s" % (k.kid, g))
+    # symbolic execution of the kernels runs in worker processes (the AST cache was filled above);
+    # each worker returns its obligations already serialised to SMT-LIB
+    specs = [(k.__class__.__module__, k.__class__.__name__, pid) for k in kernels]
+    if len(specs) > 1:
+        with ProcessPoolExecutor(max_workers=min(16, len(specs))) as ex:
+            kres = list(ex.map(_run_kernel, specs))
+    else:
+        kres = [_run_kernel(sp) for sp in specs]
+    for k, kr in zip(kernels, kres):
+        if kr.get("gap"):
+            out["gaps"].append({"kernel": k.kid, "reason": kr["gap"]})
+            print("GAP kernel=%s %s" % (k.kid, kr["gap"]))
             continue
-        except Exception as ex:
-            out["gaps"].append({"kernel": k.kid, "reason": "internal error: %r" % (ex,)})
-            traceback.print_exc()
-            continue
-        if not obs:
-            out["gaps"].append({"kernel": k.kid, "reason": "zero obligations generated (vacuous)"})
-            continue
+        st = kr["stats"]
+        k.src = kr["src"]
         out["functions"].append({"kernel": k.kid, "function": k.fn_name, "title": k.title, "source": k.src,
                                  "tu": k.tu, "extraction": getattr(k, "extraction_mode", "E1 clang -ast-dump=json"),
                                  "paths": st["paths"], "outcomes": st["outcomes"], "symexec_s": st["symexec_s"],
                                  "bounded": k.bounded})
         if k.bounded:
             out["bounded"].append({"function": k.kid, "bound": k.bounded, "notes": st["notes"]})
-        for ob in obs:
-            ob.kobj = k
-        # an obligation whose name carries property tags ("[C03 ...; C18 ...]") belongs to those properties only;
-        # untagged obligations (invariants, bounds, callee preconditions) are checked under every property
-        kept = []
-        for ob in obs:
-            tags = set(re.findall(r"C\d\d", " ".join(re.findall(r"\[([^\]]*)\]", ob.name))))
-            if tags and pid not in tags:
-                continue
-            kept.append(ob)
-        allobs += kept
+        for od in kr["obligations"]:
+            ob = SerialObligation(od, k)
+            allobs.append(ob)
     for l in lemmas:
         obs = l.obligations()
         for ob in obs:
@@ -169,7 +207,7 @@ def write_replay(pid, v, ob, r):
     rec = {"property": pid, "kernel": v["kernel"], "obligation": v["obligation"], "kind": v["kind"],
            "source": getattr(k, "src", None), "line": v["line"], "note": v["note"],
            "solver": v["solver"], "counter_model": v["model"], "path": v["path"],
-           "smt2_sha256": hashlib.sha256(solve.to_smt2(ob.hyps, ob.claim).encode()).hexdigest(),
+           "smt2_sha256": hashlib.sha256((getattr(ob, "smt2", None) or solve.to_smt2(ob.hyps, ob.claim)).encode()).hexdigest(),
            "native": None, "verdict": None}
     native = None
     try:
